@@ -9,10 +9,6 @@ use crate::ops::*;
 use crate::props::LAST;
 use crate::rng::Rng;
 use crate::run::*;
-use generic_array::sequence::GenericSequence;
-use generic_array::typenum::{U1048576, U262144};
-
-use generic_array::{box_arr, GenericArray};
 use serde_json::{json, Value};
 
 pub const SMALL_STACK: usize = 256 * 1024;
@@ -33,6 +29,12 @@ pub const BIG_CASES: &[&str] = &[
     "boxed_into_iter_roundtrip_u32_4MiB",
     "box_arr_repeat_expr_u64_8MiB",
     "box_arr_repeat_u8x16_4MiB",
+];
+/// Few, large elements (an array as large as the whole stack). In an unoptimised build every frame
+/// between the caller's generator and the heap slot holds its own copy of the element, so correct
+/// code may need as much stack as the array; only the optimised (thorough) build separates "moves
+/// an element through a few temporaries" from "builds the whole array on the stack".
+pub const BIG_CASES_OPTIMISED_ONLY: &[&str] = &[
     "default_boxed_16_x_16KiB_elements",
     "boxed_generate_16_x_16KiB_elements",
     "boxed_from_iter_16_x_16KiB_elements",
@@ -40,189 +42,28 @@ pub const BIG_CASES: &[&str] = &[
 /// not a check: demonstrates that the small stack really cannot hold the array
 pub const BIG_PROBE: &str = "probe_stack_default_u32_4MiB";
 
-type BigN = U1048576;
-type BigM = U262144;
-
-// one function per case, never inlined: a frame must not reserve space for another case's locals
-#[inline(never)]
-fn big_default_boxed_u32() -> bool {
-    let b = GenericArray::<u32, BigN>::default_boxed();
-    b.len() == 1 << 20 && b.iter().all(|&x| x == 0)
-}
-#[inline(never)]
-fn big_boxed_generate_u32() -> bool {
-    let b = Box::<GenericArray<u32, BigN>>::generate(|i| i as u32 ^ 0x55);
-    b.iter().enumerate().all(|(i, &x)| x == i as u32 ^ 0x55)
-}
-#[inline(never)]
-fn big_box_arr_repeat_u32() -> bool {
-    let b = box_arr![7u32; BigN];
-    b.len() == 1 << 20 && b.iter().all(|&x| x == 7)
-}
-#[inline(never)]
-fn big_boxed_from_iter_u32() -> bool {
-    let b: Box<GenericArray<u32, BigN>> = (0..1u32 << 20).collect();
-    b.iter().enumerate().all(|(i, &x)| x == i as u32)
-}
-#[inline(never)]
-fn big_try_boxed_from_iter_u32() -> bool {
-    let b = GenericArray::<u32, BigN>::try_boxed_from_iter((0..1u32 << 20).map(|x| x.wrapping_mul(3))).unwrap();
-    b.iter().enumerate().all(|(i, &x)| x == (i as u32).wrapping_mul(3))
-}
-#[inline(never)]
-fn big_boxed_generate_u8x16() -> bool {
-    let b = Box::<GenericArray<[u8; 16], BigM>>::generate(|i| [i as u8; 16]);
-    b.iter().enumerate().all(|(i, x)| *x == [i as u8; 16])
-}
-#[inline(never)]
-fn big_default_boxed_u8x16() -> bool {
-    let b = GenericArray::<[u8; 16], BigM>::default_boxed();
-    b.len() == 1 << 18 && b.iter().all(|x| *x == [0u8; 16])
-}
-#[inline(never)]
-fn big_boxed_collect_u8x16() -> bool {
-    let b: Box<GenericArray<[u8; 16], BigM>> = (0..1usize << 18).map(|i| [(i >> 3) as u8; 16]).collect();
-    b.iter().enumerate().all(|(i, x)| *x == [(i >> 3) as u8; 16])
-}
-#[inline(never)]
-fn big_boxed_from_iter_loose_hint() -> bool {
-    // filter: size_hint (0, Some(n)) — truthful but loose
-    let b: Box<GenericArray<u32, BigN>> = (0..1u32 << 20).filter(|x| std::hint::black_box(*x) < u32::MAX).collect();
-    b.iter().enumerate().all(|(i, &x)| x == i as u32)
-}
-#[inline(never)]
-fn big_try_boxed_from_iter_absent_hint() -> bool {
-    // from_fn: size_hint (0, None)
-    let mut k = 0u32;
-    let src = std::iter::from_fn(move || {
-        if k < 1 << 20 {
-            k += 1;
-            Some(k - 1)
-        } else {
-            None
-        }
-    });
-    let b = GenericArray::<u32, BigN>::try_boxed_from_iter(src).unwrap();
-    b.iter().enumerate().all(|(i, &x)| x == i as u32)
-}
-#[inline(never)]
-fn big_boxed_map() -> bool {
-    use generic_array::functional::FunctionalSequence;
-    let b = GenericArray::<u32, BigN>::default_boxed();
-    let c: Box<GenericArray<u32, BigN>> = b.map(|x| x + 5);
-    c.iter().all(|&x| x == 5)
-}
-#[inline(never)]
-fn big_boxed_zip() -> bool {
-    use generic_array::functional::FunctionalSequence;
-    let a = Box::<GenericArray<u32, BigN>>::generate(|i| i as u32);
-    let b = GenericArray::<u32, BigN>::default_boxed();
-    let c: Box<GenericArray<u32, BigN>> = a.zip(b, |x, y| x + y + 1);
-    c.iter().enumerate().all(|(i, &x)| x == i as u32 + 1)
-}
-#[inline(never)]
-fn big_try_from_vec() -> bool {
-    let v: Vec<u32> = (0..1u32 << 20).collect();
-    let b = GenericArray::<u32, BigN>::try_from_vec(v).unwrap();
-    b.iter().enumerate().all(|(i, &x)| x == i as u32)
-}
-#[inline(never)]
-fn big_boxed_into_iter_roundtrip() -> bool {
-    let b = Box::<GenericArray<u32, BigN>>::generate(|i| i as u32);
-    let v = b.into_vec();
-    let b2 = GenericArray::<u32, BigN>::try_from_boxed_slice(v.into_boxed_slice()).unwrap();
-    let c: Box<GenericArray<u32, BigN>> = b2.into_iter().rev().collect();
-    c.iter().enumerate().all(|(i, &x)| x == (1u32 << 20) - 1 - i as u32)
-}
-#[inline(never)]
-fn big_box_arr_repeat_expr() -> bool {
-    let b = box_arr![7u64; 1048576];
-    b.len() == 1 << 20 && b.iter().all(|&x| x == 7)
-}
-#[inline(never)]
-fn big_box_arr_repeat_u8x16() -> bool {
-    let b = box_arr![[3u8; 16]; BigM];
-    b.len() == 1 << 18 && b.iter().all(|x| *x == [3u8; 16])
-}
-// few, large elements: the array (256 KiB) is as large as the whole stack: only code that needs as much stack as the array itself dies, each element (16 KiB) is a sixteenth of it
-struct Blob([u8; 16384]);
-impl Default for Blob {
-    #[inline(always)]
-    fn default() -> Blob {
-        Blob([0; 16384])
+fn run_stack_case(case: &str, optimised: bool) -> crate::driver::ChildEnd {
+    let exe = format!("{}/target/{}/stacklane", verif_root(), if optimised { "release" } else { "debug" });
+    if !std::path::Path::new(&exe).exists() {
+        harness_error(&format!("{exe} is missing: run bin/setup (or bin/check, which builds it)"));
     }
-}
-#[inline(never)]
-fn big_default_boxed_big_elements() -> bool {
-    use generic_array::typenum::U16;
-    let b = GenericArray::<Blob, U16>::default_boxed();
-    b.len() == 16 && b.iter().all(|x| x.0.iter().all(|&y| y == 0))
-}
-#[inline(never)]
-fn big_boxed_generate_big_elements() -> bool {
-    use generic_array::typenum::U16;
-    let b = Box::<GenericArray<[u8; 16384], U16>>::generate(|i| [i as u8; 16384]);
-    b.iter().enumerate().all(|(i, x)| x[0] == i as u8 && x[16383] == i as u8)
-}
-#[inline(never)]
-fn big_boxed_from_iter_big_elements() -> bool {
-    use generic_array::typenum::U16;
-    let b: Box<GenericArray<[u8; 16384], U16>> = (0..16u8).map(|i| [i; 16384]).collect();
-    b.iter().enumerate().all(|(i, x)| x[0] == i as u8 && x[16383] == i as u8)
-}
-#[inline(never)]
-fn big_probe_stack_default_u32() -> bool {
-    let a = std::hint::black_box(GenericArray::<u32, BigN>::default());
-    a.iter().all(|&x| x == 0)
+    crate::driver::run_exe(&exe, &[case.to_string()])
 }
 
-/// child side: `gasim bigstack <case>`
-pub fn bigstack_child(case: &str) -> i32 {
-    let f: fn() -> bool = match case {
-        "default_boxed_u32_4MiB" => big_default_boxed_u32,
-        "boxed_generate_u32_4MiB" => big_boxed_generate_u32,
-        "box_arr_repeat_u32_4MiB" => big_box_arr_repeat_u32,
-        "boxed_from_iter_u32_4MiB" => big_boxed_from_iter_u32,
-        "try_boxed_from_iter_u32_4MiB" => big_try_boxed_from_iter_u32,
-        "boxed_generate_u8x16_4MiB" => big_boxed_generate_u8x16,
-        "default_boxed_u8x16_4MiB" => big_default_boxed_u8x16,
-        "boxed_collect_u8x16_4MiB" => big_boxed_collect_u8x16,
-        "boxed_from_iter_loose_hint_u32_4MiB" => big_boxed_from_iter_loose_hint,
-        "try_boxed_from_iter_absent_hint_u32_4MiB" => big_try_boxed_from_iter_absent_hint,
-        "boxed_map_u32_4MiB" => big_boxed_map,
-        "boxed_zip_u32_4MiB" => big_boxed_zip,
-        "try_from_vec_u32_4MiB" => big_try_from_vec,
-        "boxed_into_iter_roundtrip_u32_4MiB" => big_boxed_into_iter_roundtrip,
-        "box_arr_repeat_expr_u64_8MiB" => big_box_arr_repeat_expr,
-        "box_arr_repeat_u8x16_4MiB" => big_box_arr_repeat_u8x16,
-        "default_boxed_16_x_16KiB_elements" => big_default_boxed_big_elements,
-        "boxed_generate_16_x_16KiB_elements" => big_boxed_generate_big_elements,
-        "boxed_from_iter_16_x_16KiB_elements" => big_boxed_from_iter_big_elements,
-        "probe_stack_default_u32_4MiB" => big_probe_stack_default_u32,
-        _ => return 2,
-    };
-    let h = std::thread::Builder::new().stack_size(SMALL_STACK).spawn(move || f()).unwrap();
-    match h.join() {
-        Ok(true) => 0,
-        Ok(false) => {
-            println!("WRONG-CONTENTS");
-            3
-        }
-        Err(_) => 4,
-    }
-}
-
-pub fn small_stack_lane() -> (Option<String>, Value) {
+pub fn small_stack_lane(tier: &str) -> (Option<String>, Value) {
+    let _ = tier;
     let mut results = serde_json::Map::new();
     let mut violation: Option<String> = None;
-    for case in BIG_CASES {
-        let end = run_child(&["bigstack".into(), case.to_string()], &[], true);
+    let mut cases: Vec<(&str, bool)> = BIG_CASES.iter().map(|c| (*c, false)).collect();
+    cases.extend(BIG_CASES_OPTIMISED_ONLY.iter().map(|c| (*c, true)));
+    for (case, optimised) in &cases {
+        let end = run_stack_case(case, *optimised);
         let ok = end.code == Some(0);
-        results.insert(case.to_string(), json!(if ok { "completed, contents correct".to_string() } else { format!("FAILED code={:?} signal={:?} {}", end.code, end.signal, end.stderr_tail) }));
+        results.insert(format!("{case}{}", if *optimised { " [optimised build]" } else { "" }), json!(if ok { "completed, contents correct".to_string() } else { format!("FAILED code={:?} signal={:?} {}", end.code, end.signal, end.stderr_tail) }));
         if !ok && violation.is_none() {
             let p = format!("{}/replays/C15-small-stack-{case}.json", verif_root());
             let class = if end.signal.is_some() { "C15-big-array-overflows-small-stack" } else { "C15-big-array-wrong-contents" };
-            let j = json!({"format": 1, "property": "C15", "lane": "small_stack", "case": case,
+            let j = json!({"format": 1, "property": "C15", "lane": "small_stack", "case": case, "optimised": optimised,
                 "violation": {"class": class, "detail": format!("{case} on a thread with a {SMALL_STACK}-byte stack: code={:?} signal={:?} {}", end.code, end.signal, end.stderr_tail)}});
             let _ = std::fs::create_dir_all(format!("{}/replays", verif_root()));
             std::fs::write(&p, serde_json::to_string_pretty(&j).unwrap()).unwrap_or_else(|e| harness_error(&format!("{p}: {e}")));
@@ -230,7 +71,7 @@ pub fn small_stack_lane() -> (Option<String>, Value) {
             violation = Some(p);
         }
     }
-    let probe = run_child(&["bigstack".into(), BIG_PROBE.into()], &[], true);
+    let probe = run_stack_case(BIG_PROBE, false);
     results.insert(
         "sensitivity_probe_stack_built_array_of_same_size".into(),
         json!(if probe.code == Some(0) { "completed (the small stack did NOT bite: lane is not sensitive in this build)".to_string() } else { format!("killed as expected (signal {:?}): a 4 MiB array built on the {SMALL_STACK}-byte stack cannot survive", probe.signal) }),
@@ -242,7 +83,7 @@ pub fn replay_lane(v: &Value) -> Option<i32> {
     match v["lane"].as_str()? {
         "small_stack" => {
             let case = v["case"].as_str()?.to_string();
-            let end = run_child(&["bigstack".into(), case.clone()], &[], true);
+            let end = run_stack_case(&case, v["optimised"].as_bool().unwrap_or(false));
             if end.code == Some(0) {
                 println!("no violation: {case} completes on the small stack");
                 Some(0)
